@@ -45,7 +45,40 @@ def _quiet(f):
         pass
 
 
+def gmd(x):
+    return (repr(x.group_metadata('observation')), repr(x.group_metadata('sample')))
+
+
+def snapshot(x):
+    """ids, values, metadata, type – and the group metadata"""
+    return O.content(x) + gmd(x)
+
+
+def starts():
+    import numpy as np
+    from biom import Table
+    from ..model import M
+    S = dict(OPS.start_tables())
+    D = [[1, 2, 0], [0, 3, 4]]
+    S['groupmd2x3'] = (lambda: Table(np.array(D, float), ['o1', 'o2'], ['a', 'b', 'c'], [{'k': '1'}, {'k': '2'}], None,
+                                    observation_group_metadata={'tree': ('newick', '(o1,o2);')},
+                                    sample_group_metadata={'graph': ('text', 'a-b-c')}),
+                       M(['o1', 'o2'], ['a', 'b', 'c'], D, [{'k': '1'}, {'k': '2'}], None))
+    return S
+
+
 def mutator_sequences():
+    def rename_same_width(x):
+        for ax in ('sample', 'observation'):
+            ids = list(x.ids(ax))
+            new = {i: str(i).swapcase() for i in ids}
+            if ids and len(set(new.values())) == len(ids) and all(k != v for k, v in new.items()):
+                x.update_ids(new, axis=ax, inplace=True)
+
+    def group_md(x):
+        for ax in ('sample', 'observation'):
+            x.add_group_metadata({'tree': ('newick', '(changed);'), 'extra': ('text', 'x')}, ax)
+
     def rename(x):
         for ax in ('sample', 'observation'):
             ids = list(x.ids(ax))
@@ -67,7 +100,8 @@ def mutator_sequences():
         'values': [lambda x: x.transform(lambda v, i, md: v * 2 + 1, axis='sample', inplace=True),
                    lambda x: x.transform(lambda v, i, md: v * 3, axis='observation', inplace=True),
                    lambda x: x.pa(inplace=True)],
-        'labels': [addmd, lambda x: x.del_metadata(['k', 'g', 'n', 'collapsed_ids']), rename],
+        'labels': [rename_same_width, addmd, lambda x: x.del_metadata(['k', 'g', 'n', 'collapsed_ids']), rename,
+                   group_md],
         'misc': [lambda x: x.remove_empty(inplace=True),
                  lambda x: x.rankdata(axis='sample', inplace=True),
                  lambda x: x.norm(axis='observation', inplace=True)],
@@ -107,13 +141,14 @@ def on_transition(tr, report):
             if r2 is None:
                 return
             victim, mutated = (t2, r2) if direction == 'result->original' else (r2, t2)
-            snap = O.content(victim)
+            snap = snapshot(victim)
             for f in seq:
                 _quiet(lambda: f(mutated))
-                now = O.content(victim)
+                now = snapshot(victim)
                 if now != snap:
                     what = [n for n, a, b in zip(('observation ids', 'sample ids', 'values',
-                                                   'observation metadata', 'sample metadata', 'type'),
+                                                   'observation metadata', 'sample metadata', 'type',
+                                                   'observation group metadata', 'sample group metadata'),
                                                   now, snap) if a != b]
                     report('aliasing:%s:%s' % (name, sname),
                            'after %s, in-place %s changes to the %s show through in the %s (%s)'
@@ -138,7 +173,7 @@ def on_transition(tr, report):
 
 
 def spec(depth):
-    return E.Spec(OPS.start_tables(), OPS.all_ops(), depth, check_ops=(), on_transition=on_transition,
+    return E.Spec(starts(), OPS.all_ops(), depth, check_ops=(), on_transition=on_transition,
                   apply=apply, want_before=True, label='d%d' % depth)
 
 
